@@ -1,5 +1,6 @@
 import NotationCore.Spec.EnvMonitors
 import NotationCore.Proofs.Envelope
+import NotationCore.Tie.Constants
 /-!
   The envelope-read monitors are not stricter than the model: evaluated on the *model's own*
   output they report nothing. (An implementation that agrees with the model can therefore never
@@ -7,6 +8,27 @@ import NotationCore.Proofs.Envelope
 -/
 namespace NotationCore.EnvMonitor
 open NotationCore Base
+
+/-! the specification's lists are the regenerated tables (on the tree where `Tie.Constants` checks) -/
+theorem jwsSpecHeaders_eq : jwsSpecHeaders = Generated.jwsHeaderKeys := Tie.jws_header_keys.symm
+theorem coseSpecIntLabels_eq : coseSpecIntLabels = Generated.coseSystemIntLabels := Tie.cose_system_labels.1.symm
+theorem coseSpecTextLabels_eq : coseSpecTextLabels = Generated.coseSystemTextLabels := Tie.cose_system_labels.2.symm
+
+theorem jwsExtMembersSpec_eq (ms : List Jws.Member) : jwsExtMembersSpec ms = Jws.extMembers ms := by
+  unfold jwsExtMembersSpec
+  rw [jwsSpecHeaders_eq]
+  rfl
+
+theorem jwsExtAttrsSpec_eq (ms : List Jws.Member) (h : Jws.Hdr) : jwsExtAttrsSpec ms h = Jws.extAttrsOf ms h := by
+  unfold jwsExtAttrsSpec Jws.extAttrsOf
+  rw [jwsExtMembersSpec_eq]
+
+theorem coseIsSpecLabel_eq (l : Cose.Label) : coseIsSpecLabel l = Cose.isSystem l := by
+  cases l <;> simp [coseIsSpecLabel, Cose.isSystem, coseSpecIntLabels_eq, coseSpecTextLabels_eq]
+
+theorem coseExtAttrsSpec_eq (e : Cose.Env) : coseExtAttrsSpec e = Cose.extAttrsOf e := by
+  unfold coseExtAttrsSpec Cose.extAttrsOf
+  simp only [coseIsSpecLabel_eq]
 
 theorem any_self {α} (l : List α) (p : α → α → Bool) (hp : ∀ a, p a a = true) :
     l.all (fun g => l.any (fun x => p x g)) = true := by
@@ -46,6 +68,7 @@ theorem c13_jws_model (e : Jws.Env) (ci : ChainInfo) (via : Bool) (c : Content) 
   have : jwsExpectedAttrs ms h exact = c.extAttrs := by
     rw [hext]
     unfold jwsExpectedAttrs Jws.extAttrsOf
+    rw [jwsExtMembersSpec_eq]
     apply List.map_congr_left
     intro m _
     rw [hexact]
@@ -65,6 +88,7 @@ theorem c13_jws_model (e : Jws.Env) (ci : ChainInfo) (via : Bool) (c : Content) 
     obtain ⟨x, hx, hxk⟩ := List.any_eq_true.mp hany
     obtain ⟨k, hk, hnot⟩ := hn x hx
     rw [hk] at hxk
+    rw [jwsSpecHeaders_eq] at hxk
     simp [hnot] at hxk
   · rfl
 
@@ -95,7 +119,7 @@ theorem c13_cose_model (e : Cose.Env) (ci : ChainInfo) (via : Bool) (c : Content
     cases hk : x.key with
     | int i => rw [hk] at this; simpa using this
     | text t => rw [hk] at this; simpa using this
-  simp [cose, hext, attrsRules_refl, hcrit]
+  simp [cose, hext, attrsRules_refl, hcrit, coseExtAttrsSpec_eq, coseSpecIntLabels_eq, coseSpecTextLabels_eq]
   exact hn
 
 /-! ### C07, C02, C01 -/
@@ -260,7 +284,8 @@ theorem c01_jws_core (e : Jws.Env) (c : Content) (hinner : Jws.content e = .val 
   have halg : c.alg = alg := by rw [a6]; rfl
   have hm : Jws.contentOf e ms h c.alg = c := by rw [halg]; exact a6.symm
   have hch : c.chain = e.x5c.filterMap id := by rw [a6]; rfl
-  simp [jws, jwsDecoded, hsig, a1, a2, hm, sameAttrSet_refl, hch]
+  have hattrs : jwsExtAttrsSpec ms h = c.extAttrs := by rw [jwsExtAttrsSpec_eq, a6]; rfl
+  simp [jws, jwsDecoded, hsig, a1, a2, hm, hattrs, sameAttrSet_refl, hch]
 
 /-- **C01 monitor, JWS, verify** -/
 theorem c01_jws_model_verify (e : Jws.Env) (ci : ChainInfo) (c : Content) (exact : Jws.Member → String)
@@ -327,7 +352,7 @@ theorem c01_cose_core (e : Cose.Env) (ci : ChainInfo) (c : Content) (via : Bool)
   have p3 : c.cty = cty := by rw [a9]; rfl
   have p4 : c.extAttrs = Cose.extAttrsOf e := by rw [a9]; rfl
   have p5 : c.chain = Cose.chainOf e := by rw [a9]; rfl
-  simp [cose, hsig, p1, p2, a1, p3, hs, he, p4, sameAttrSet_refl, p5]
+  simp [cose, hsig, p1, p2, a1, p3, hs, he, p4, coseExtAttrsSpec_eq, sameAttrSet_refl, p5]
 
 /-- **C01 monitor, COSE, verify** -/
 theorem c01_cose_model_verify (e : Cose.Env) (ci : ChainInfo) (c : Content)
